@@ -502,7 +502,7 @@ func (s *tsys) run() {
 		s.direct = s.dc
 		setUintField(s.dc, "nextQid", uint64(o.StartQid))
 		for k := 0; k < o.SeedQueue; k++ {
-			s.dc.queue[uint32(o.StartQid+uint16(k))] = make(chan *[]byte, 1)
+			occupyMapKey(s.dc, "queue", uint64(o.StartQid+uint16(k)))
 		}
 	case "lazy-tcp":
 		// the lazily dialed connection of the pipeline transport, driven directly
@@ -625,9 +625,7 @@ func (s *tsys) doCall(ci int, c *call) {
 		r, err = s.tr.ExchangeContext(ctx, c.q)
 	} else {
 		if s.opt.RewindQid && s.dc != nil {
-			s.dc.queueMu.Lock()
-			setUintField(s.dc, "nextQid", uint64(s.opt.StartQid))
-			s.dc.queueMu.Unlock()
+			withLock(s.dc, "queueMu", func() { setUintField(s.dc, "nextQid", uint64(s.opt.StartQid)) })
 		}
 		s.reserving++
 		c.activeMax = s.active
